@@ -6,10 +6,38 @@ Validity (the API contract): a zero-delay send carries a strictly smaller type t
 processed, so that it never sorts before it (larger type sorts first on equal timestamps)."""
 import argparse, json, os, random
 
-FAMILIES = ("mixed", "ties", "zerodelay", "fanout", "nonmono", "time0", "initdone", "sparse", "single")
+FAMILIES = ("mixed", "ties", "zerodelay", "fanout", "nonmono", "time0", "initdone", "sparse", "single", "chain")
+
+
+def gen_chain(seed, size):
+    """a long dependency chain hopping between the LPs of two threads, and a trigger LP (owned by a third thread when
+    there are three) whose only event is a straggler for the head of the chain: a rollback cascade of one anti-message
+    per hop walks down the whole chain"""
+    r = random.Random(seed * 31 + 7)
+    H = r.choice([4, 6, 8]) if size == "small" else r.choice([8, 10])
+    n = 3 * H
+    payloads = [{"size": 0, "padd": 0, "bytes": []}, {"size": 8, "padd": 1, "bytes": [r.randrange(256) for _ in range(8)]}]
+    hop = {"drule": H, "drule2": n - H + 1, "delay": 1, "ty": 2, "pid": r.choice([0, 1])}
+    trans = []
+    for s_ in range(2):
+        trans.append([
+            {"draw": 0, "lib": 0, "mem": -1, "out": [{"ns": s_, "sends": [{"drule": 1, "drule2": 1, "delay": 1, "ty": 3, "pid": 0}]}]},   # type 1: seed
+            # type 2: hop; once the trigger has been delivered (state 1) the head of the chain stops forwarding, so that
+            # after the rollback only the cascade of anti-messages is left in the system
+            {"draw": 0, "lib": 0, "mem": r.choice([-1, 2, 4]), "out": [{"ns": s_, "sends": [dict(hop)] if s_ == 0 or r.random() < 0.3 else []}]},
+            {"draw": 0, "lib": 0, "mem": -1, "out": [{"ns": 1, "sends": []}]},                                                         # type 3: trigger
+        ])
+    init = [[] for _ in range(n)]
+    init[0] = [{"drule": 0, "drule2": 0, "delay": 1, "ty": 2, "pid": 0}]
+    init[n - 1] = [{"drule": 0, "drule2": 0, "delay": 0, "ty": 1, "pid": 0}]
+    laps = r.choice([2, 3, 4])
+    return {"seed": seed, "family": "chain", "nlps": n, "K": 2, "T": 3, "P": 2, "split": H, "need": [1] * n, "cap": [laps] * n,
+            "endmask": [1, 1], "payloads": payloads, "init": init, "trans": trans}
 
 
 def gen(seed, family="mixed", size="small"):
+    if family == "chain":
+        return gen_chain(seed, size)
     r = random.Random(seed * 7919 + (FAMILIES.index(family) if family in FAMILIES else 99))
     if family == "single":
         nlps = 1
@@ -100,26 +128,34 @@ def gen(seed, family="mixed", size="small"):
                 outs.append({"ns": r.randrange(K), "sends": [mk_send(ty) for _ in range(ns_)]})
             row.append({"draw": draw, "lib": lib, "mem": mem, "out": outs})
         trans.append(row)
-    return {"seed": seed, "family": family, "nlps": nlps, "K": K, "T": T, "P": P, "need": need, "cap": cap,
+    for sends in init:
+        for sd in sends:
+            sd["drule2"] = sd["drule"]
+    for row in trans:
+        for e in row:
+            for o in e["out"]:
+                for sd in o["sends"]:
+                    sd["drule2"] = sd["drule"]
+    return {"seed": seed, "family": family, "nlps": nlps, "K": K, "T": T, "P": P, "split": nlps, "need": need, "cap": cap,
             "endmask": endmask, "payloads": payloads, "init": init, "trans": trans}
 
 
 def to_txt(m):
-    o = [m["nlps"], m["K"], m["T"], m["P"]]
+    o = [m["nlps"], m["K"], m["T"], m["P"], m["split"]]
     o += m["need"] + m["cap"] + m["endmask"]
     for p in m["payloads"]:
         o += [p["size"], p["padd"]] + p["bytes"]
     for sends in m["init"]:
         o.append(len(sends))
         for s in sends:
-            o += [s["drule"], s["delay"], s["ty"], s["pid"]]
+            o += [s["drule"], s["drule2"], s["delay"], s["ty"], s["pid"]]
     for row in m["trans"]:
         for e in row:
             o += [e["draw"], e["lib"], e["mem"]]
             for out in e["out"]:
                 o += [out["ns"], len(out["sends"])]
                 for s in out["sends"]:
-                    o += [s["drule"], s["delay"], s["ty"], s["pid"]]
+                    o += [s["drule"], s["drule2"], s["delay"], s["ty"], s["pid"]]
     return " ".join(str(x) for x in o) + "\n"
 
 
